@@ -1,6 +1,8 @@
 //! Verification harness: runs the real mqtt-protocol-core code and writes line-protocol
 //! traces that the Lean driver (`mqttdrv`) replays through the model.
 mod alloc;
+mod conn;
+mod conn_gen;
 mod frame;
 mod rng;
 
@@ -21,11 +23,13 @@ fn main() {
     match args[1].as_str() {
         "alloc" => alloc::generate(tier, seed, &mut out),
         "frame" => frame::generate(tier, seed, &mut out),
+        "conn" => conn_gen::generate(tier, seed, &args[4.min(args.len())..], &mut out),
         "replay" => {
             let text = std::fs::read_to_string(&args[3]).expect("trace file");
             match args[2].as_str() {
                 "alloc" => alloc::replay(&text, &mut out),
                 "frame" => frame::replay(&text, &mut out),
+                "conn" => conn::replay(&text, &mut out),
                 m => {
                     eprintln!("unknown replay mode {m}");
                     std::process::exit(2);
